@@ -32,14 +32,22 @@ const (
 	opWgDone
 	opWgWait
 	opCondWait
+	opSelect
 )
 
-var opNames = [...]string{"start", "spawn", "send", "recv", "close", "lock", "rlock", "wg.Add", "wg.Done", "wg.Wait", "cond.Wait"}
+var opNames = [...]string{"start", "spawn", "send", "recv", "close", "lock", "rlock", "wg.Add", "wg.Done", "wg.Wait", "cond.Wait", "select"}
 
 type pend struct {
 	kind opKind
 	obj  uintptr
 	ch   reflect.Value
+	sel  []SelCase // opSelect: the communication cases
+}
+
+// SelCase is one communication case of a select statement.
+type SelCase struct {
+	Ch   any
+	Send bool
 }
 
 type thread struct {
@@ -217,8 +225,34 @@ func (sc *schedT) enabled(t *thread) bool {
 		return sc.wgOf(t.op.obj).n == 0
 	case opCondWait:
 		return sc.condOf(t.op.obj).woken[t.id]
+	case opSelect:
+		return len(sc.selReady(t.op.sel)) > 0
 	}
 	return true
+}
+
+// selReady: the indices of the cases of a select that can proceed now.  A nil channel never can; a receive can on
+// a closed or non-empty channel; a send on a closed channel (it panics, as in Go) or on one with room.  A send or
+// receive on an UNBUFFERED open channel needs a partner blocked in the matching operation, which this model does
+// not represent: never ready (a select with default then takes the default, as Go does when no partner waits; a
+// blocking select on unbuffered channels only is reported as a deadlock of the model - see Select).
+func (sc *schedT) selReady(cases []SelCase) []int {
+	var out []int
+	for i, c := range cases {
+		v := reflect.ValueOf(c.Ch)
+		if !v.IsValid() || v.Kind() != reflect.Chan || v.IsNil() {
+			continue
+		}
+		cs := sc.chanOf(v)
+		if c.Send {
+			if cs.closed || (v.Cap() > 0 && v.Len() < v.Cap()) {
+				out = append(out, i)
+			}
+		} else if cs.closed || v.Len() > 0 {
+			out = append(out, i)
+		}
+	}
+	return out
 }
 
 func (sc *schedT) describe(t *thread) string {
@@ -574,6 +608,64 @@ func Close(c any) {
 		}
 	}
 	v.Close()
+}
+
+// Select replaces the choice a select statement makes: it returns the index of the communication case to
+// perform (the caller then performs it with the plain operation, which cannot block: no other thread runs in
+// between), or -1 for the default clause.  Without default the thread waits until a case is ready.  When several
+// are ready Go chooses at random: a choice point of the explorer.  The shadow state and the clocks are updated
+// as the send / receive hooks do.
+func Select(hasDefault bool, cases ...SelCase) int {
+	if !schedOn() || s.aborting {
+		return -2 // not under the scheduler: the caller runs the original select
+	}
+	for _, c := range cases {
+		if v := reflect.ValueOf(c.Ch); v.IsValid() && v.Kind() == reflect.Chan && !v.IsNil() && v.Cap() == 0 && !hasDefault {
+			panic("vrt: a blocking select on an unbuffered channel is not modelled")
+		}
+	}
+	if hasDefault {
+		yield(pend{kind: opYield})
+	} else {
+		yield(pend{kind: opSelect, sel: cases})
+	}
+	sc := s
+	if sc.aborting {
+		return -2
+	}
+	ready := sc.selReady(cases)
+	if len(ready) == 0 {
+		return -1
+	}
+	k := ready[0]
+	if len(ready) > 1 {
+		k = ready[choose("select", len(ready), 1)]
+	}
+	v := reflect.ValueOf(cases[k].Ch)
+	cs := sc.chanOf(v)
+	me := sc.cur
+	if cases[k].Send {
+		if cs.closed {
+			sc.fail(me, fmt.Sprintf("send on closed channel by T%d", me.id))
+			return k
+		}
+		if j := cs.nsend - v.Cap(); j >= 0 && j < len(cs.recvVCs) {
+			joinVC(me, cs.recvVCs[j])
+		}
+		cs.nsend++
+		cs.slots = append(cs.slots, append([]int{}, me.vc...))
+		me.vc[me.id]++
+		return k
+	}
+	if len(cs.slots) > 0 {
+		joinVC(me, cs.slots[0])
+		cs.slots = cs.slots[1:]
+	} else if cs.closed {
+		joinVC(me, cs.closeVC)
+	}
+	cs.recvVCs = append(cs.recvVCs, append([]int{}, me.vc...))
+	me.vc[me.id]++
+	return k
 }
 
 // ChanClosed tells harness code whether the shadow state saw a close.
